@@ -214,35 +214,38 @@ theorem C17_deque_solo_bound (n : Nat) (log : List Ev) (s : St)
       (∀ e ∈ evs, Ev.tid e = t) ∧ evs.head? = some (.inv t push d v) ∧
       evs.getLast? = some (.ret t ok r) ∧ runLog stepF s evs = some s' ∧ s'.pc t = .idle ∧
       (ok = false ↔ (push = false ∧ contents s = [])) := by
-  have key : ∀ (mid : List Ev) (ok : Bool) (r : Nat), mid.length + 2 ≤ soloBound push →
-      (∀ e ∈ mid, Ev.tid e = t) →
-      (Ev.inv t push d v :: mid ++ [Ev.ret t ok r]).length ≤ soloBound push ∧
-      (∀ e ∈ (Ev.inv t push d v :: mid ++ [Ev.ret t ok r]), Ev.tid e = t) ∧
-      (Ev.inv t push d v :: mid ++ [Ev.ret t ok r]).head? = some (.inv t push d v) ∧
-      (Ev.inv t push d v :: mid ++ [Ev.ret t ok r]).getLast? = some (.ret t ok r) := by
-    intro mid ok r hl hm
-    refine ⟨by simp; omega, ?_, rfl, ?_⟩
-    · intro e he
-      simp only [List.cons_append, List.mem_cons, List.mem_append] at he
-      rcases he with he | he | he | he
-      · rw [he]; rfl
-      · exact hm e he
-      · rw [he]; rfl
-      · cases he
-    · have : Ev.inv t push d v :: mid ++ [Ev.ret t ok r] = (Ev.inv t push d v :: mid) ++ [Ev.ret t ok r] := rfl
-      rw [this, List.getLast?_append]; simp
-  cases push
-  · by_cases he : contents s = []
-    · obtain ⟨s', h1, h2, _⟩ := C17_deque_solo_pop_empty n log s h t ht hidle d v he
-      obtain ⟨k1, k2, k3, k4⟩ := key [.ld t s.anchor] false 0 (by simp [soloBound]) (by simp [Ev.tid])
-      exact ⟨_, false, 0, s', k1, k2, k3, k4, h1, h2, by simp [he]⟩
-    · obtain ⟨mid, r, s', h1, h2, h3, h4, _⟩ :=
-        C17_deque_solo_pop_nonempty n log s h t ht hidle d v he
-      obtain ⟨k1, k2, k3, k4⟩ := key mid true r (by simp [soloBound]; omega) h2
-      exact ⟨_, true, r, s', k1, k2, k3, k4, h3, h4, by simp [he]⟩
-  · obtain ⟨mid, s', h1, h2, h3, h4, _⟩ := C17_deque_solo_push n log s h t ht hidle d v
-    obtain ⟨k1, k2, k3, k4⟩ := key mid true 0 (by simp [soloBound]; omega) h2
-    exact ⟨_, true, 0, s', k1, k2, k3, k4, h3, h4, by simp⟩
+  have hi := (stale_false_fixed h).2
+  have hn : s.n = n := run_n h
+  obtain ⟨evs, ok, r, s', h1, h2, h3, h4, h5, h6, _, h7⟩ :=
+    solo_bound_of_glob (fx := true) s t (by rw [hn]; exact ht) hi.glob (finUsed_of_accepted h) hidle push d v
+  exact ⟨evs, ok, r, s', h1, h2, h3, h4, h5, h6, h7⟩
+
+/-- **Pinned tree (link tags restart on recycling), partial.**  The same solo termination for the
+    unrepaired code `step`, from every reachable state in which no link CAS has been stale so far
+    (`s.stale = false`: the hypothesis of all `_partial` theorems of `Props/C17.lean`; it can only
+    fail through the recycling ABA `findings/C17-aba-link.case`).  Full statement = this one without
+    `hs`.  What is missing: after a harmful stale link CAS the structural invariant `Glob` (the
+    anchor ends are chain nodes, their inward links name allocated neighbours) is lost — in the
+    finding's witness the anchor ends up pointing into the freelist — and the run constructed here
+    needs it for the null checks and for the answer; whether the bound survives is not known. -/
+theorem C17_deque_solo_bound_pinned_partial (n : Nat) (log : List Ev) (s : St)
+    (h : runLog step (init n) log = some s) (hs : s.stale = false)
+    (t : Nat) (ht : t < n) (hidle : s.pc t = .idle) (push d : Bool) (v : Nat) :
+    ∃ (evs : List Ev) (ok : Bool) (r : Nat) (s' : St), evs.length ≤ soloBound push ∧
+      (∀ e ∈ evs, Ev.tid e = t) ∧ evs.head? = some (.inv t push d v) ∧
+      evs.getLast? = some (.ret t ok r) ∧ runLog step s evs = some s' ∧ s'.pc t = .idle ∧
+      (ok = false ↔ (push = false ∧ contents s = [])) := by
+  have hi := inv_of_accepted h hs
+  have hn : s.n = n := run_n h
+  obtain ⟨evs, ok, r, s', h1, h2, h3, h4, h5, h6, _, h7⟩ :=
+    solo_bound_of_glob (fx := false) s t (by rw [hn]; exact ht) hi.glob (finUsed_of_accepted h) hidle push d v
+  exact ⟨evs, ok, r, s', h1, h2, h3, h4, h5, h6, h7⟩
+
+/-- non-vacuity (pinned tree): a stalled pusher under `step`; thread 0 is idle and `stale = false` -/
+example : (runLog step (init 2) [.inv 1 true false 1, .alloc 1 1, .ld 1 ⟨0, 0, 0, 0⟩, .cas 1 true,
+      .ret 1 true 0, .inv 1 true false 2, .alloc 1 2, .ld 1 ⟨1, 1, 0, 1⟩, .link 1 2 1, .cas 1 true]).map
+    (fun s => (s.pc 0, s.pc 1, s.stale, contents s)) =
+    some (.idle, .stRd1 .pushDone false ⟨2, 1, 2, 2⟩, false, [2, 1]) := by decide
 
 /-- non-vacuity: both bounds are attained from `stalledLog` (14-event pop, 19-event push above) -/
 example : soloPopRight.length = soloBound false ∧ soloPushRight.length = soloBound true := by decide
